@@ -13,7 +13,7 @@ import ast
 import re as _re
 
 from .model import PKG, AnalysisError, Program, is_property, norm, walk_no_nested
-from .values import (ArgsView, Bound, ClsRef, Const, Dct, EnumV, ExcV, Ext, FlagV, Func, Gen, Lam, Lst, NodeV, Obj, Part, Seq, Str,
+from .values import (ArgsView, Bound, ClsRef, Const, Dct, EnumV, ExcV, Ext, FlagV, Func, Gen, Lam, Lst, NodeV, Obj, OneShot, Part, Seq, Str,
                      Sym, Tpl, Tup, Val, mkstr, tagof)
 
 
@@ -558,7 +558,11 @@ class Interp:
                         res = True
                         break
             elif isinstance(r, Dct):
-                res = isinstance(l, Const) and l.v in r.items
+                key_ = l.v if isinstance(l, Const) else tagof(l)
+                res = key_ in r.items
+                if not res and getattr(r, "shared_name", None):
+                    # a module-level dict that code writes to: an earlier call may have stored this key
+                    res = self.decide(f"{tagof(l)} in {r.shared_name}")
             elif isinstance(l, Const) and isinstance(r, Const) and isinstance(r.v, str) and isinstance(l.v, str):
                 res = l.v in r.v
             elif isinstance(l, Const) and isinstance(r, Str) and isinstance(l.v, str) and any(
@@ -759,6 +763,11 @@ class Interp:
         return Seq(self.ev(e.elt, sub), kind, src=("comp", it))
 
     def iter_values(self, it, site):
+        if isinstance(it, OneShot):
+            if it.consumed:
+                return []
+            it.consumed = True
+            return list(it.items)
         if isinstance(it, (Tup, Lst)) and not getattr(it, "open", False):
             return list(it.items)
         if isinstance(it, ClsRef) and it.dotted.startswith(PKG + ".") and it.dotted.count(".") == 2:
@@ -1412,6 +1421,11 @@ class Interp:
             if isinstance(a0, Dct) and not getattr(a0, "shared_name", None):
                 keys = [a0.keyvals.get(k, Const(k)) for k in a0.items]  # iterating a dict gives its keys
                 return Lst(keys) if b != "tuple" else Tup(keys)
+            if isinstance(a0, OneShot):
+                if b == "iter":
+                    return a0  # iter(iterator) is the iterator itself
+                got = self.iter_values(a0, site)  # list(it) / tuple(it) / sorted(it) consume it
+                return Lst(got) if b != "tuple" else Tup(got)
             if isinstance(a0, (Tup, Lst)):
                 return Lst(a0.items, open=getattr(a0, "open", False)) if b != "tuple" else Tup(a0.items)
             if isinstance(a0, Seq):
@@ -1449,6 +1463,10 @@ class Interp:
         if b == "getattr" and len(args) == 2 and not kwargs and isinstance(args[1], Const) and isinstance(args[1].v, str) \
                 and isinstance(a0, (Obj, NodeV)):
             return self.getattr(a0, args[1].v, site)  # getattr(x, "name") is x.name
+        if b == "zip" and args and "strict" not in {k for k, v in kwargs.items() if isinstance(v, Const) and v.v}:
+            cols = [self.iter_values(self.force(x), site) for x in args]
+            if all(c is not None for c in cols):
+                return Lst([Tup(list(row)) for row in zip(*cols)])  # pairs up to the shortest operand
         if b in ("int", "min", "max", "bool", "float", "repr", "map", "zip", "range", "getattr", "type", "id", "hash"):
             if b == "bool" and a0 is not None:
                 return Const(self.truth(a0))
@@ -1878,7 +1896,8 @@ class Interp:
                 q = idn.args.get("quoted") if t is not None else None
                 if isinstance(t, Const) and isinstance(t.v, str) and _re.match(r"^[A-Za-z_]\w*$", t.v) and isinstance(q, Const) and not q.v:
                     return Const(t.v)  # a bare unquoted column name renders as itself in every dialect
-            return Sym(f"sql({n.name})", truthy=True, origin=("sql", n, kwargs.get("dialect")), typ="str")
+            extra = {k: v for k, v in kwargs.items() if k != "dialect"}  # generator options (pretty, identify, comments …) change the text
+            return Sym(f"sql({n.name})", truthy=True, origin=("sql", n, kwargs.get("dialect"), extra), typ="str")
         if name == "copy":
             c = NodeV(n.cls, dict(n.args), name=n.name + "'", open=n.open, notcls=n.notcls)
             c.fresh = True
@@ -1968,7 +1987,11 @@ class Interp:
         if name == "join":
             self.effect("nodejoin", n, args, kwargs, site)
             return n
-        if name in ("pop", "unnest", "assert_is"):
+        if name == "unnest":
+            while n.cls == "Paren" and isinstance(n.args.get("this"), NodeV):
+                n = n.args["this"]  # Expression.unnest(): the first non-parenthesis node
+            return n
+        if name in ("pop", "assert_is"):
             return n
         return Sym(f"{n.name}.{name}()@{self.siteid(site)}", origin=("method", n, name, args))
 
